@@ -747,6 +747,7 @@ fn eval_allocfail(c: &Check, v: &mut Verdict) {
         }
         with_mode(&c.case, c.case.mode, Fault::None, r.events.len() + 64)
     };
+    crate::isolate::clear_panic_caught();
     let end = run_forked(
         || {
             let o = exec::execute(&case);
@@ -799,7 +800,13 @@ fn eval_allocfail(c: &Check, v: &mut Verdict) {
         ChildEnd::Died { sig, status } => {
             v.bump("fired_alloc_failure");
             let name = sig.as_deref().and_then(|s| s.split_whitespace().next()).unwrap_or("");
-            if name == "ABRT" {
+            if crate::isolate::panic_was_caught() {
+                v.fail(
+                    "died-after-caught-panic",
+                    0,
+                    format!("the growth request panicked and the panic was caught; the process then died by {:?} while the context was used or dropped (dropping requests no memory: a double free or a use after free)", sig),
+                );
+            } else if name == "ABRT" {
                 v.bump("ended_by_abort");
             } else {
                 let class = crate::parent::crash_class(sig.as_deref(), Some(&status.to_string()));
